@@ -447,6 +447,18 @@ func main() {
 	}
 	e := &Explorer{f: f, r: r, lmax: lmax, best: map[string]core.Violation{}, fullDump: !*fastDump}
 	for cfg := range configs {
+		if cfg == 2 {
+			// the mirrored two-timer configuration: every bound one level shallower (about an eighth of the cost)
+			full := e.lmax
+			short := make([]int, len(full))
+			for i, v := range full {
+				short[i] = v - 1
+			}
+			e.lmax = short
+			e.run(cfg)
+			e.lmax = full
+			continue
+		}
 		e.run(cfg)
 	}
 	if e.expired || *dry {
